@@ -449,3 +449,72 @@ package main
 //@   loop 0:
 //@     invariant 0 <= $i && $i <= len(vp.Params) && vp.Params == old(vp.Params)
 //@     invariant forall j int :: 0 <= j && j < $i ==> vp.Params[j].Key != name
+
+// ---- Via decoding and the Via stack (C02 C06 C07) ----
+
+// a decoded header value stored in the header list is never a typed nil pointer
+//@ fieldinv Header.value: isType($v, "string") || isNil($v) || allocated(refOf($v))
+
+//@ func parseViaParam
+//@   props C02 C08
+//@   ensures err == nil ==> result != nil && fresh(result)
+//@   ensures err != nil ==> result == nil
+
+//@ func ParseVia
+//@   props C02 C08
+//@   ensures ok: err == nil ==> result != nil && fresh(result) && len(result.params) == len(split(via, ",")) && len(result.params) >= 1
+//@   ensures ok-entries: err == nil ==> (forall k int :: 0 <= k && k < len(result.params) ==> result.params[k] != nil && fresh(result.params[k]))
+//@   ensures bad: err != nil ==> result == nil
+//@   loop 0:
+//@     invariant 0 <= $i && $i <= len(split(via, ",")) && len(result.params) == $i
+//@     invariant forall k int :: 0 <= k && k < len(result.params) ==> result.params[k] != nil && fresh(result.params[k])
+
+//@ func (*Message).GetVia
+//@   props C02 C06 C07
+//@   modifies Header.value
+//@   ensures none: firstIdx(m.headers, "Via") < 0 ==> err != nil
+//@   ensures failed: err != nil ==> (forall h *Header :: h.value == old(h.value)) && result == nil
+//@   ensures typed: firstIdx(m.headers, "Via") >= 0 && isType(old(m.headers[firstIdx(m.headers, "Via")].value), "*Via") ==>
+//@        err == nil && result == asRef(old(m.headers[firstIdx(m.headers, "Via")].value), "*Via") && (forall h *Header :: h.value == old(h.value))
+//@   ensures parsed: firstIdx(m.headers, "Via") >= 0 && isType(old(m.headers[firstIdx(m.headers, "Via")].value), "string") && err == nil ==>
+//@        fresh(result) && m.headers[firstIdx(m.headers, "Via")].value == anyRef("*Via", result)
+//@        && len(result.params) == len(split(asStr(old(m.headers[firstIdx(m.headers, "Via")].value)), ",")) && len(result.params) >= 1
+//@        && (forall k int :: 0 <= k && k < len(result.params) ==> result.params[k] != nil && fresh(result.params[k]))
+//@   ensures badtype: firstIdx(m.headers, "Via") >= 0 && !isType(old(m.headers[firstIdx(m.headers, "Via")].value), "*Via") && !isType(old(m.headers[firstIdx(m.headers, "Via")].value), "string") ==> err != nil
+//@   ensures frame: forall h *Header :: firstIdx(m.headers, "Via") < 0 || h != m.headers[firstIdx(m.headers, "Via")] ==> h.value == old(h.value)
+//@   ensures ok-result: err == nil ==> result != nil && m.headers[firstIdx(m.headers, "Via")].value == anyRef("*Via", result)
+
+//@ func (*Message).PopVia
+//@   props C02
+//@   modifies Header.value, m.headers, Via.params
+//@   ensures none: firstIdx(old(m.headers), "Via") < 0 ==> result != nil
+//@   ensures failed-list: result != nil ==> m.headers == old(m.headers)
+//@   ensures failed-values: result != nil ==> (forall h *Header :: h.value == old(h.value))
+//@   ensures failed-vias: result != nil ==> (forall v *Via :: old(allocated(v)) ==> v.params == old(v.params))
+//@   ensures typed-ok: firstIdx(old(m.headers), "Via") >= 0 && isType(old(m.headers[firstIdx(m.headers, "Via")].value), "*Via") ==> result == nil && (forall h *Header :: h.value == old(h.value))
+//@   ensures typed-shrink: firstIdx(old(m.headers), "Via") >= 0 && isType(old(m.headers[firstIdx(m.headers, "Via")].value), "*Via") && len(old(asRef(m.headers[firstIdx(m.headers, "Via")].value, "*Via").params)) > 1 ==>
+//@        m.headers == old(m.headers)
+//@        && asRef(old(m.headers[firstIdx(m.headers, "Via")].value), "*Via").params == old(asRef(m.headers[firstIdx(m.headers, "Via")].value, "*Via").params)[1:]
+//@   ensures typed-remove: firstIdx(old(m.headers), "Via") >= 0 && isType(old(m.headers[firstIdx(m.headers, "Via")].value), "*Via") && len(old(asRef(m.headers[firstIdx(m.headers, "Via")].value, "*Via").params)) <= 1 ==>
+//@        m.headers == old(m.headers)[:firstIdx(old(m.headers), "Via")] ++ old(m.headers)[firstIdx(old(m.headers), "Via")+1:]
+//@   ensures string-shrink: firstIdx(old(m.headers), "Via") >= 0 && isType(old(m.headers[firstIdx(m.headers, "Via")].value), "string") && result == nil && len(split(asStr(old(m.headers[firstIdx(m.headers, "Via")].value)), ",")) > 1 ==>
+//@        m.headers == old(m.headers) && isType(m.headers[firstIdx(m.headers, "Via")].value, "*Via") && fresh(asRef(m.headers[firstIdx(m.headers, "Via")].value, "*Via"))
+//@        && len(asRef(m.headers[firstIdx(m.headers, "Via")].value, "*Via").params) == len(split(asStr(old(m.headers[firstIdx(m.headers, "Via")].value)), ",")) - 1
+//@   ensures string-remove: firstIdx(old(m.headers), "Via") >= 0 && isType(old(m.headers[firstIdx(m.headers, "Via")].value), "string") && result == nil && len(split(asStr(old(m.headers[firstIdx(m.headers, "Via")].value)), ",")) <= 1 ==>
+//@        m.headers == old(m.headers)[:firstIdx(old(m.headers), "Via")] ++ old(m.headers)[firstIdx(old(m.headers), "Via")+1:]
+//@   ensures others-untouched: forall h *Header :: firstIdx(old(m.headers), "Via") < 0 || h != old(m.headers)[firstIdx(old(m.headers), "Via")] ==> h.value == old(h.value)
+//@   ensures other-vias-untouched: forall v *Via :: old(allocated(v)) && (firstIdx(old(m.headers), "Via") < 0 || anyRef("*Via", v) != old(m.headers[firstIdx(m.headers, "Via")].value)) ==> v.params == old(v.params)
+
+//@ func (*Proxy).getNextReponseHop
+//@   props C02 C07 C12
+//@   modifies Header.value
+//@   ensures none: firstIdx(msg.headers, "Via") < 0 ==> err != nil
+//@   ensures hop: err == nil ==> isType(msg.headers[firstIdx(msg.headers, "Via")].value, "*Via")
+//@        && len(asRef(msg.headers[firstIdx(msg.headers, "Via")].value, "*Via").params) >= 1
+//@        && transport == asRef(msg.headers[firstIdx(msg.headers, "Via")].value, "*Via").params[0].Transport
+//@        && host == hopHost(asRef(msg.headers[firstIdx(msg.headers, "Via")].value, "*Via").params[0])
+//@        && port == hopPort(asRef(msg.headers[firstIdx(msg.headers, "Via")].value, "*Via").params[0])
+//@   ensures decodable-means-hop: firstIdx(msg.headers, "Via") >= 0 && isType(old(msg.headers[firstIdx(msg.headers, "Via")].value), "*Via")
+//@        && len(old(asRef(msg.headers[firstIdx(msg.headers, "Via")].value, "*Via").params)) >= 1 ==> err == nil
+//@   ensures frame: forall h *Header :: firstIdx(msg.headers, "Via") < 0 || h != msg.headers[firstIdx(msg.headers, "Via")] ==> h.value == old(h.value)
+//@   ensures typed-kept: firstIdx(msg.headers, "Via") >= 0 && isType(old(msg.headers[firstIdx(msg.headers, "Via")].value), "*Via") ==> (forall h *Header :: h.value == old(h.value))
